@@ -289,8 +289,9 @@ class Base:
             return z3.Implies(a, b)
         return None
 
-    def prove(self, kind, label, f, props=None, finding=None, extra_pc=(), src=""):
-        """Emit obligations for goal formula f: conjunctions split, foralls skolemised."""
+    def prove(self, kind, label, f, props=None, finding=None, extra_pc=(), src="", extra_hyps=()):
+        """Emit obligations for goal formula f: conjunctions split, foralls skolemised; a universally quantified
+        antecedent becomes a hypothesis of the obligations of its consequent."""
         if f is None or f is True:
             f = z3.BoolVal(True)
         if f is False:
@@ -302,20 +303,26 @@ class Base:
         if z3.is_expr(f):
             if z3.is_and(f) and len(f.children()) > 1 and kind != "nosplit":
                 for i, c in enumerate(f.children()):
-                    self.prove(kind, "%s.%d" % (label, i), c, props, finding, extra_pc, src)
+                    self.prove(kind, "%s.%d" % (label, i), c, props, finding, extra_pc, src, extra_hyps)
                 return
-            self._emit(kind, label, f, props, finding, extra_pc, src)
+            self._emit(kind, label, f, props, finding, extra_pc, src, extra_hyps)
             return
         if isinstance(f, FAnd):
             for i, p in enumerate(f.parts):
                 self.prove(kind, "%s.%d" % (label, i) if len(f.parts) > 1 else label, p, props, finding,
-                           extra_pc, src)
+                           extra_pc, src, extra_hyps)
             return
         if isinstance(f, FImp):
             a = self.f_to_term(f.a)
             if a is None:
-                raise GenError("quantified antecedent in goal %s" % label)
-            return self.prove(kind, label, f.b, props, finding, tuple(extra_pc) + (a,), src)
+                parts = f.a.parts if isinstance(f.a, FAnd) else [f.a]
+                terms = [self.f_to_term(p) for p in parts if not isinstance(p, FAll)]
+                alls = [p for p in parts if isinstance(p, FAll)]
+                if any(t is None for t in terms) or not alls:
+                    raise GenError("quantified antecedent in goal %s" % label)
+                return self.prove(kind, label, f.b, props, finding, tuple(extra_pc) + tuple(terms), src,
+                                  tuple(extra_hyps) + tuple(alls))
+            return self.prove(kind, label, f.b, props, finding, tuple(extra_pc) + (a,), src, extra_hyps)
         if isinstance(f, FAll):
             c = z3.FreshConst(Int, f.var)
             rng = z3.And(self.z(f.lo) <= c, c < self.z(f.hi))
@@ -326,18 +333,18 @@ class Base:
                 if extra_pc and not self.feasible(z3.And(*extra_pc)):
                     return
                 raise
-            return self.prove(kind, label, body, props, finding, tuple(extra_pc) + (rng,), src)
+            return self.prove(kind, label, body, props, finding, tuple(extra_pc) + (rng,), src, extra_hyps)
         if isinstance(f, FOr):
             ts = [self.f_to_term(p) for p in f.parts]
             if all(t is not None for t in ts):
-                return self._emit(kind, label, z3.Or(*ts), props, finding, extra_pc, src)
+                return self._emit(kind, label, z3.Or(*ts), props, finding, extra_pc, src, extra_hyps)
         raise GenError("cannot prove formula shape %r (%s)" % (f, label))
 
-    def _emit(self, kind, label, goal, props, finding, extra_pc, src):
+    def _emit(self, kind, label, goal, props, finding, extra_pc, src, extra_hyps=()):
         sig = "".join("T" if d else "F" for d in self.decisions[:self.pos]) or "-"
         self.obligations.append(Obligation(
             oid="%s/%s[%s]/%s" % (self.unit.short, kind, label, sig),
-            kind=kind, label=label, pc=list(self.pc) + list(extra_pc), hyps=list(self.hyps), goal=goal,
+            kind=kind, label=label, pc=list(self.pc) + list(extra_pc), hyps=list(self.hyps) + list(extra_hyps), goal=goal,
             base_len=len(self.pc), extra=list(extra_pc),
             path=sig, props=props or self.unit.contract.props, unit=self.unit.short, finding=finding,
             theory=self.th, src=src))
